@@ -678,3 +678,176 @@ Lemma delivery_example : exists s, run true init
      LLogPClose 0; LPeerClose 0; LRClose 0; LLogEnq 1; LReconnect; LEnq 1; LSBlkQueue 0] = Some s /\
   cur s = Some 1 /\ dead (gens s 1) = false /\ peerc (gens s 1) = false /\ pending s 1 /\ sp (gens s 0) = SCheck 1.
 Proof. eexists. split; [vm_compute; reflexivity|]. cbn. repeat split; auto. right. right. exists 0. reflexivity. Qed.
+
+(* ------------------------------------------------------------------------------------------------ *)
+(* the specification machine accepts the log of every run in which the client itself does not give up a
+   connection (no TarsClient.Close, no idle close: the harness's scripts contain neither) *)
+Lemma memp_In g m l : memp g m l = true <-> In (g, m) l.
+Proof.
+  unfold memp. rewrite existsb_exists. split.
+  - intros ((a & b) & Hy & E). cbn in E. apply andb_prop in E. destruct E as [E1 E2]. apply Nat.eqb_eq in E1, E2. now subst.
+  - intros H. exists (g, m). split; auto. cbn. now rewrite !Nat.eqb_refl.
+Qed.
+Lemma mem2_In m l : mem2 m l = true <-> exists g, In (g, m) l.
+Proof.
+  unfold mem2. rewrite existsb_exists. split.
+  - intros ((a & b) & Hy & E). cbn in E. apply Nat.eqb_eq in E. subst. eauto.
+  - intros (g & H). exists (g, m). split; auto. cbn. apply Nat.eqb_refl.
+Qed.
+
+Definition Inv4 (s : st) : Prop :=
+  (forall m, In m (hist s) -> In m (lenq s)) /\
+  (forall g, dead (gens s g) = true -> peerc (gens s g) = true) /\
+  (forall g, peerc (gens s g) = true -> In g (lpc s)) /\
+  (forall c, cur s = Some c -> S c = ngen s) /\
+  ldial s <= ngen s.
+
+Lemma Inv4_step s l s' : Inv0 s -> Inv3 s -> Inv4 s -> client_close l = false -> step true s l = Some s' -> Inv4 s'.
+Proof.
+  intros HN (_ & _ & HL & _) (H1 & H2 & H3 & H4 & H5) CC H. destruct l; try discriminate CC; cbn [step] in H.
+  all: dstep H.
+  all: unfold Inv4, do_close, w_sp, w_gen, w_gens, is_cur, isCurrent in *; cbn in *.
+  all: repeat split; intros; cbn in *.
+  all: unfold upd in *; cbn in *; rewrite ?al_dead, ?al_sp, ?al_done, ?al_peerc, ?al_rp in *.
+  all: eqs.
+  all: eauto; try lia; try discriminate; try congruence.
+  all: try (match goal with E : sp (gens _ ?g) = SFailClose |- _ => destruct (HL g) as [X|X]; [rewrite E; reflexivity|auto|auto] end).
+  all: try (match goal with E : _ && (peerc _ || dead _) = true |- _ => apply andb_prop in E; destruct E as [_ E]; apply orb_prop in E; destruct E; auto end).
+  all: try (match goal with E : _ && _ && memn ?g _ = true |- In ?g _ => apply andb_prop in E; destruct E as [_ E]; now apply memn_In end).
+  all: try (match goal with E : memn ?m _ && _ = true, H : In _ (_ ++ [?m]) |- _ => apply andb_prop in E; destruct E as [E _]; apply memn_In in E; apply in_app_or in H; destruct H as [H|[H|[]]]; subst; auto end).
+  all: try (rewrite in_app_iff; auto).
+  apply Nat.ltb_lt in Heqb. lia.
+Qed.
+
+Definition Sim (s : st) (k : chk) : Prop :=
+  k_dialed k = ldial s /\ k_pclosed k = lpc s /\ k_enq k = lenq s /\ k_srvs k = lsrv s /\
+  (forall g, In g (k_obs k) -> dead (gens s g) = true) /\
+  (forall g id, In (g, id) (k_late k) -> dead (gens s g) = true /\ (In id (hist s) -> In id (late (gens s g)))) /\
+  (forall g m, sp (gens s g) = SWrite m -> In (g, m) (k_writes k)) /\
+  (forall g m, In m (got (gens s g)) -> In (g, m) (k_writes k)).
+
+Definition logs (l : label) : bool :=
+  match l with LSHook _ | LLogEnq _ | LLogPClose _ | LLogObs _ | LLogSrv _ _ | LLogReply _ | LLogFail _ | LLogDial _ => true | _ => false end.
+
+Lemma Sim_silent s l s' k : Inv0 s -> Sim s k -> logs l = false -> step true s l = Some s' -> log s' = log s /\ Sim s' k.
+Proof.
+  intros HN (S1 & S2 & S3 & S4 & S5 & S6 & S7 & S8) LG H.
+  assert (DM : forall g, dead (gens s g) = true -> dead (gens s' g) = true) by (intros; eapply dead_mono_step; eauto).
+  assert (LM : forall g m, In m (late (gens s g)) -> In m (late (gens s' g))) by (intros; eapply late_mono_step; eauto).
+  destruct l; try discriminate LG; cbn [step] in H.
+  2: { (* LEnq *)
+    destruct (memn m (lenq s) && negb (memn m (hist s))) eqn:E; [|discriminate]. injection H as <-.
+    split; [reflexivity|]. unfold Sim; cbn.
+    split; [exact S1|]. split; [exact S2|]. split; [exact S3|]. split; [exact S4|].
+    split. { intros g X. rewrite al_dead. auto. }
+    split. { intros g id X. destruct (S6 g id X) as [A B]. rewrite al_dead, al_late, A. split; auto. rewrite !in_app_iff. cbn. intros [Y|[Y|[]]]; auto. }
+    split. { intros g m0. rewrite al_sp. apply S7. } { intros g m0. rewrite al_got. apply S8. } }
+  all: dstep H.
+  all: split; [reflexivity|].
+  all: unfold Sim; cbn [ldial lpc lenq lsrv hist w_sp w_gen w_gens w_closedF w_sendQ w_failQ w_hist w_atts do_close].
+  all: split; [exact S1|]; split; [exact S2|]; split; [exact S3|]; split; [exact S4|].
+  all: split; [intros g0 X; apply DM; auto|].
+  all: split; [intros g0 id X; destruct (S6 g0 id X) as [A B]; split; [apply DM; auto|intros Hh; apply LM, B, Hh]|].
+  all: cbn; unfold upd; cbn.
+  all: split; intros g0 m0.
+  all: eqs.
+  all: eauto; try discriminate; try congruence.
+  - intros [].
+  - rewrite in_app_iff. intros [X|[X|[]]]; subst; auto.
+Qed.
+
+Lemma chk_run_app es : forall k e, chk_run k (es ++ [e]) = match chk_run k es with Some k' => chk_step k' e | None => None end.
+Proof. induction es as [|x r IH]; cbn; intros. - now destruct (chk_step k e). - destruct (chk_step k x); auto. Qed.
+
+Lemma Sim_log s l s' k : InvX s -> Inv4 s -> Sim s k -> logs l = true -> step true s l = Some s' ->
+  exists e k', log s' = log s ++ [e] /\ chk_step k e = Some k' /\ Sim s' k'.
+Proof.
+  intros ((I1 & I2 & HN) & I3) (J1 & J2 & J3 & J4 & J5) (S1 & S2 & S3 & S4 & S5 & S6 & S7 & S8) LG H.
+  destruct l; try discriminate LG; cbn [step] in H.
+  all: dstep H.
+  all: eexists; eexists; split; [reflexivity|].
+  - (* LSHook *)
+    destruct I1 as (HA & HC). destruct I2 as (_ & HE & _ & _ & _ & HH & _).
+    assert (Hh : In m (hist s)). { apply (HH g). rewrite Heqs0. reflexivity. }
+    assert (E1 : memn m (k_enq k) = true). { rewrite S3. apply memn_In. auto. }
+    assert (E2 : memp g m (k_late k) = false).
+    { destruct (memp g m (k_late k)) eqn:E; auto. apply memp_In in E. destruct (S6 g m E) as [_ B].
+      exfalso. apply (HE g m); [rewrite Heqs0; reflexivity|auto]. }
+    assert (E3 : negb (dead (gens s g) || negb (is_cur s g)) || memn g (k_pclosed k) = true).
+    { destruct (dead (gens s g) || negb (is_cur s g)) eqn:E; [|reflexivity]. cbn. rewrite S2. apply memn_In. apply J3, J2.
+      apply orb_prop in E. destruct E as [E|E]; auto. apply negb_true_iff in E.
+      apply HC. - apply lt_ngen_of_sp; auto. congruence.
+      - unfold is_cur in E. destruct (cur s); [|congruence]. intros [= ->]. now rewrite Nat.eqb_refl in E. }
+    cbn [chk_step]. rewrite E1, E2, E3. cbn. split; [reflexivity|].
+    unfold Sim; cbn. split; [exact S1|]. split; [exact S2|]. split; [exact S3|]. split; [exact S4|].
+    unfold upd.
+    split. { intros g0 X. destruct (g0 =? g) eqn:Q; cbn; auto. apply Nat.eqb_eq in Q. subst. auto. }
+    split. { intros g0 id X. destruct (S6 g0 id X) as [A B]. destruct (g0 =? g) eqn:Q; cbn; auto. apply Nat.eqb_eq in Q. subst. auto. }
+    split. { intros g0 m0. rewrite in_app_iff. destruct (g0 =? g) eqn:Q; cbn. - apply Nat.eqb_eq in Q. subst. intros [= ->]. right. now left. - intros X. left. auto. }
+    { intros g0 m0. rewrite in_app_iff. destruct (g0 =? g) eqn:Q; cbn. - apply Nat.eqb_eq in Q. subst. intros X. left. auto. - intros X. left. auto. }
+  - (* LLogEnq *)
+    cbn [chk_step]. rewrite S3, Heqb. split; [reflexivity|].
+    unfold Sim; cbn. split; [exact S1|]. split; [exact S2|]. split; [rewrite ?S3; reflexivity|]. split; [exact S4|].
+    split; [exact S5|]. split; [|split; [exact S7|exact S8]].
+    intros g id0. rewrite in_app_iff, in_map_iff. intros [X|(g' & [= <- <-] & X)]; [apply S6; auto|].
+    split; [apply S5; auto|]. intros Hh. apply J1 in Hh. apply memn_In in Hh. congruence.
+  - (* LLogPClose *)
+    apply andb_prop in Heqb. destruct Heqb as [_ Heqb]. apply negb_true_iff in Heqb.
+    cbn [chk_step]. rewrite S2, Heqb. split; [reflexivity|].
+    unfold Sim; cbn. split; [exact S1|]. split; [rewrite ?S2; reflexivity|]. split; [exact S3|]. split; [exact S4|]. auto.
+  - (* LLogObs *)
+    apply andb_prop in Heqb. destruct Heqb as [C1 C2]. destruct I1 as (HA & _). unfold is_cur in C2.
+    destruct (cur s) as [c|] eqn:EC; [|discriminate]. apply Nat.eqb_eq in C2. subst c. destruct HA as [HA _].
+    assert (D : dead (gens s g) = true) by congruence.
+    assert (E1 : memn g (k_pclosed k) = true). { rewrite S2. apply memn_In. auto. }
+    cbn [chk_step]. rewrite E1. split; [reflexivity|].
+    unfold Sim; cbn. split; [exact S1|]. split; [exact S2|]. split; [exact S3|]. split; [exact S4|].
+    split; [|auto]. intros g0. destruct (memn g (k_obs k)); [apply S5|]. rewrite in_app_iff. intros [X|[<-|[]]]; auto.
+  - (* LLogSrv *)
+    apply andb_prop in Heqb. destruct Heqb as [_ G]. apply memn_In in G.
+    assert (E1 : memp g id (k_writes k) = true). { apply memp_In. auto. }
+    cbn [chk_step]. rewrite E1. split; [reflexivity|].
+    unfold Sim; cbn. split; [exact S1|]. split; [exact S2|]. split; [exact S3|]. split; [rewrite S4; reflexivity|]. auto.
+  - (* LLogReply *)
+    cbn [chk_step]. rewrite S4, Heqb. split; [reflexivity|].
+    unfold Sim; cbn. rewrite <- S4. auto 10.
+  - (* LLogFail *)
+    cbn [chk_step]. rewrite S3, Heqb. split; [reflexivity|].
+    unfold Sim; cbn. rewrite <- S3. auto 10.
+  - (* LLogDial *)
+    apply andb_prop in Heqb. destruct Heqb as [G1 G2]. apply Nat.eqb_eq in G1. apply Nat.ltb_lt in G2. subst g.
+    assert (E1 : (match ldial s with 0 => true | S p => memn p (k_pclosed k) end) = true).
+    { destruct (ldial s) as [|p] eqn:EL; auto. rewrite S2. apply memn_In, J3, J2.
+      destruct I1 as (HA & HC). apply HC; [lia|]. intros EC. apply J4 in EC. lia. }
+    cbn [chk_step]. rewrite S1, Nat.eqb_refl, E1. split; [reflexivity|].
+    unfold Sim; cbn. auto 10.
+Qed.
+
+Lemma Inv4_init : Inv4 init.
+Proof. unfold Inv4, init; cbn. repeat split; intros; try discriminate; try contradiction; auto. Qed.
+Lemma Sim_init : Sim init chk0.
+Proof. unfold Sim, init, chk0; cbn. repeat split; intros; try discriminate; try contradiction; auto. Qed.
+
+Lemma spec_sim ls : forall s k s', InvX s -> Inv4 s -> Sim s k -> chk_run chk0 (log s) = Some k ->
+  Forall (fun l => client_close l = false) ls -> run true s ls = Some s' ->
+  exists k', chk_run chk0 (log s') = Some k' /\ Sim s' k'.
+Proof.
+  induction ls as [|l r IH]; cbn [run]; intros s k s' I J S K F R.
+  - injection R as <-. eauto.
+  - destruct (step true s l) as [s1|] eqn:E; [|discriminate]. inversion F as [|? ? Fl Fr]; subst.
+    assert (I' : InvX s1) by (eapply InvX_step; eauto).
+    assert (J' : Inv4 s1). { destruct I as ((_ & _ & HN) & I3). eapply Inv4_step; eauto. }
+    destruct (logs l) eqn:LG.
+    + destruct (Sim_log s l s1 k I J S LG E) as (e & k1 & L1 & C1 & S1).
+      eapply (IH s1 k1); eauto. rewrite L1, chk_run_app, K. exact C1.
+    + destruct I as ((_ & _ & HN) & _). destruct (Sim_silent s l s1 k HN S LG E) as (L1 & S1).
+      eapply (IH s1 k); eauto. now rewrite L1.
+Qed.
+
+(* every log the model can produce (all schedules; no TarsClient.Close, no idle close) is accepted *)
+Theorem spec_machine_sound ls s : run true init ls = Some s -> Forall (fun l => client_close l = false) ls ->
+  c11_accepts (log s) = true.
+Proof.
+  intros R F. destruct (spec_sim ls init chk0 s InvX_init Inv4_init Sim_init eq_refl F R) as (k & K & _).
+  unfold c11_accepts. now rewrite K.
+Qed.
